@@ -8,6 +8,7 @@ import (
 	"time"
 
 	"github.com/tyler-sommer/stick"
+	"github.com/tyler-sommer/stick/twig"
 
 	"verif/core"
 )
@@ -124,6 +125,35 @@ func c14ObserveFS(src string) (o c14Obs, pan string) {
 	return o, ""
 }
 
+// c14ObserveInline observes src as an inline template of a Twig environment (twig.New(nil): the source is its own
+// name), followed by text that ends like a file name. Names of other templates are taken for inline sources here, so
+// the outputs differ from the other observations; they are only compared between spellings.
+func c14ObserveInline(src string) (o c14Obs, pan string) {
+	env := twig.New(nil)
+	addStdCallbacks(env)
+	name := src + " see app.js"
+	_, perr, pp := tryEnvParse(env, name)
+	if pp != "" {
+		return o, pp
+	}
+	if perr != nil {
+		o.perr = "parse-error"
+		return o, ""
+	}
+	for _, ctx := range []map[string]stick.Value{stdCtx(), c14Ctx2} {
+		out, err, p := tryExec(env, name, ctx)
+		if p != "" {
+			return o, p
+		}
+		e := ""
+		if err != nil {
+			e = " ERR"
+		}
+		o.outs = append(o.outs, out+e)
+	}
+	return o, ""
+}
+
 func c14Run(c core.Case) core.Result {
 	items := c14Items()
 	if c.N[0] >= len(items) {
@@ -171,6 +201,17 @@ func c14Run(c core.Case) core.Result {
 		}
 		if fs.perr != got.perr || strings.Join(fs.outs, "\x00") != strings.Join(got.outs, "\x00") {
 			return core.Violation("loader-dependent", fmt.Sprintf("%q loaded from a file gives %q %q, from memory %q %q", respelled, fs.perr, fs.outs, got.perr, got.outs))
+		}
+	}
+	if c.N[1] == 2 && canon.perr == "" {
+		// long gaps: also as an inline template of a Twig environment
+		i1, p1 := c14ObserveInline(it.src)
+		i2, p2 := c14ObserveInline(respelled)
+		if p1 != "" || p2 != "" {
+			return core.Violation("panic", fmt.Sprintf("%q / %q as inline templates of a Twig environment panicked: %s %s", it.src, tail(respelled, 80), p1, p2))
+		}
+		if i1.perr != i2.perr || strings.Join(i1.outs, "\x00") != strings.Join(i2.outs, "\x00") {
+			return core.Violation("output-differs", fmt.Sprintf("as inline templates of a Twig environment (followed by ' see app.js'), %q gives %q %q but its re-spelling with a gap of %d bytes gives %q %q", it.src, i1.perr, i1.outs, len(respelled)-len(it.src), i2.perr, i2.outs))
 		}
 	}
 	if canon.perr != "" {
@@ -270,7 +311,7 @@ func c14Levels(tier string) []core.Level {
 		{Name: "canonical spellings parse and render (0 deviations)", Gen: func(emit func(core.Case)) { c14Gen(0, false, false, emit) }},
 		{Name: "every spelling with 1 deviation (whitespace choice from 7 (tab, newline, CR LF, two blanks, mixed, bare CR; none where the neighbours cannot merge), quote style, trailing comma, '-' marker)", Gen: func(emit func(core.Case)) { c14Gen(1, false, false, emit) }},
 		{Name: "every spelling with <= 2 deviations", Gen: func(emit func(core.Case)) { c14Gen(2, false, false, emit) }},
-		{Name: "long gaps: every whitespace site with 40 blanks / a newline and deep indentation / 70 newlines (1 deviation)", Gen: func(emit func(core.Case)) { c14GenMode(1, 2, false, emit) }},
+		{Name: "long gaps: every whitespace site with 40 blanks / a newline and deep indentation / 70 newlines / 300 blanks / 2100 blank-newline pairs (1 deviation), observed also as an inline template of a Twig environment that ends like a file name", Gen: func(emit func(core.Case)) { c14GenMode(1, 2, false, emit) }},
 	}
 	if thorough(tier) {
 		lv = append(lv, core.Level{Name: "every spelling with <= 3 deviations over the reduced whitespace alphabet {none, newline, blank}", Gen: func(emit func(core.Case)) { c14Gen(3, true, false, emit) }})
